@@ -129,12 +129,149 @@ struct Dim {
     return H(std::move(b), s, F);
   }
 
+
+  /*! cut points (see checks/c24emit.py): the tracer recomputes intermediate quantities of
+   * convertTangentModuli with the real static helpers (getNTensors, getEulerianMTensors,
+   * areEigenValuesEqual, findSingleEigenValue) and with a verbatim copy of the `xsi`, `eta`, `dzeta`
+   * lambdas; the CSE of symtrace maps them onto the nodes computed inside the traced call, and the
+   * emitter turns these nodes into parameters of the outputs. A marker that does not coincide with a
+   * node of the traced call is an unused parameter (soundness never depends on the markers). */
+  static void mark_NM(const H& h, const Setting s) {
+    const auto Nn = H::getNTensors(h.m);
+    if constexpr (N == 3) {
+      for (int i = 0; i != 3; ++i)
+        for (int j = 0; j != 3; ++j)
+          for (int k = 0; k != S; ++k)
+            verif::output("cut_N" + std::to_string(i) + std::to_string(j) + "_" + std::to_string(k),
+                          Sym(Nn(i, j)[k]));
+    } else {
+      for (int i = 0; i != 4; ++i)
+        for (int k = 0; k != S; ++k)
+          verif::output("cut_N" + std::to_string(i) + "_" + std::to_string(k), Sym(Nn(i)[k]));
+    }
+    if (s == EUL) {
+      const auto Mm = H::getEulerianMTensors(h.m, h.F);
+      if constexpr (N == 3) {
+        for (int i = 0; i != 3; ++i)
+          for (int j = 0; j != 3; ++j)
+            for (int k = 0; k != S; ++k)
+              verif::output("cut_M" + std::to_string(i) + std::to_string(j) + "_" + std::to_string(k),
+                            Sym(Mm(i, j)[k]));
+      } else {
+        for (int i = 0; i != 4; ++i)
+          for (int k = 0; k != S; ++k)
+            verif::output("cut_M" + std::to_string(i) + "_" + std::to_string(k), Sym(Mm(i)[k]));
+      }
+    }
+  }
+  static void mark_tangent(const H& h, const Setting s, const stensor<N, Sym>& T) {
+    using real = Sym;
+    using size_type = unsigned short;
+    mark_NM(h, s);
+    const auto Nn = H::getNTensors(h.m);
+    const auto d = map([](const real x) { return 1 / (2 * x); }, h.vp);
+    const auto f = map([](const real x) { return -2 / (x * x); }, h.vp);
+    for (int i = 0; i != 3; ++i) verif::output("cut_f" + std::to_string(i), f[i]);
+    if constexpr (N == 3) {
+      const auto lk = [](const size_type i, const size_type j) -> size_type {
+        if (i == 0) {
+          return (j == 1) ? 2 : 1;
+        }
+        if (i == 1) {
+          return (j == 0) ? 2 : 0;
+        }
+        return (j == 0) ? 1 : 0;
+      };
+      // verbatim copy of the lambdas of convertTangentModuli (3D)
+      const auto xsi = [&h, &d, &f]() -> tmatrix<3u, 3u, real> {
+        if (H::areEigenValuesEqual(h.vp)) {
+          constexpr auto zero = real{0};
+          const auto rv = (f[0] + f[1] + f[2]) / 24;
+          return {zero, rv, rv, rv, zero, rv, rv, rv, zero};
+        }
+        auto r = tmatrix<3u, 3u, real>{};
+        const auto k = H::findSingleEigenValue(h.vp);
+        if (k != 3) {
+          for (size_type i = 0; i != 3; ++i) {
+            for (size_type j = 0; j != 3; ++j) {
+              if (i == j) {
+                r(i, j) = real{};
+              } else if ((i == k) || (j == k)) {
+                const auto idvp = 1 / (h.vp[i] - h.vp[j]);
+                r(i, j) = ((h.e[i] - h.e[j]) * idvp - d[j]) * idvp;
+              } else {
+                r(i, j) = (f[i] + f[j]) / 16;
+              }
+            }
+          }
+          return r;
+        }
+        for (size_type i = 0; i != 3; ++i) {
+          for (size_type j = 0; j != 3; ++j) {
+            if (i == j) {
+              r(i, j) = real{};
+            } else {
+              const auto idvp = 1 / (h.vp[i] - h.vp[j]);
+              r(i, j) = ((h.e[i] - h.e[j]) * idvp - d[j]) * idvp;
+            }
+          }
+        }
+        return r;
+      }();
+      const auto eta = [&h, &lk, &f, &d] {
+        if (H::areEigenValuesEqual(h.vp)) {
+          return (f[0] + f[1] + f[2]) / 24;
+        }
+        const auto u = H::findSingleEigenValue(h.vp);
+        if (u != 3) {
+          const auto i = (u == 2) ? 0 : 2;
+          const auto idvp = 1 / (h.vp[i] - h.vp[u]);
+          return ((h.e[i] - h.e[u]) * idvp - d[u]) * idvp;
+        }
+        auto r = real{};
+        for (size_type i = 0; i != 3; ++i) {
+          for (size_type j = 0; j != 3; ++j) {
+            if (i == j) {
+              continue;
+            }
+            const auto k = lk(i, j);
+            r += h.e[i] / (2 * (h.vp[i] - h.vp[j]) * (h.vp[i] - h.vp[k]));
+          }
+        }
+        return r;
+      }();
+      for (int i = 0; i != 3; ++i)
+        for (int j = 0; j != 3; ++j) {
+          if (i != j) verif::output("cut_xi" + std::to_string(i) + std::to_string(j), xsi(i, j));
+          verif::output("cut_z" + std::to_string(i) + std::to_string(j), Sym((T | Nn(i, j)) / 2));
+        }
+      verif::output("cut_eta", eta);
+    } else {
+      const auto xsi = [&h, &d, &f]() -> tvector<2u, real> {
+        if (tfel::math::abs(h.vp[0] - h.vp[1]) < H::eps) {
+          const auto rv = (f[0] + f[1]) / 16;
+          return {rv, rv};
+        }
+        const auto idvp = 1 / (h.vp[0] - h.vp[1]);
+        return {((h.e[0] - h.e[1]) * idvp - d[1]) * idvp,
+                -((h.e[0] - h.e[1]) * idvp - d[0]) * idvp};
+      }();
+      verif::output("cut_xi0", xsi[0]);
+      verif::output("cut_xi1", xsi[1]);
+      verif::output("cut_z0", Sym((T | Nn(0)) / 2));
+      verif::output("cut_z1", Sym((T | Nn(1)) / 2));
+      verif::output("cut_z3", Sym((T | Nn(3)) / 2));
+    }
+    // the markers evaluate eps-branches themselves: do not record them twice
+  }
+
   static void builder(const Setting s, const Pattern& pt) {
     Unit u(std::string("N") + std::to_string(N) + (s == LAG ? "_L" : "_E") +
            "_builder" + pt.tag);
     set_oracle(pt);
     const auto F = inputF();
     const H h(s, F);
+    if (s == EUL) mark_NM(h, s);
     verif::outputs("e", h.e, 3);
     verif::outputs("vpo", h.vp, 3);
     verif::outputs2("p", h.p, S, S);
@@ -206,6 +343,11 @@ struct Dim {
     c24::fillg(Ts, "T", S);
     st2tost2<N, Sym> Ks;
     c24::fillg2(Ks, "K", S, S);
+    {
+      const auto npath = verif::ctx().path.size();
+      mark_tangent(h, s, Ts);
+      verif::ctx().path.resize(npath);
+    }
     const st2tost2<N, Sym> r = (s == LAG) ? h.convertToMaterialTangentModuli(Ks, Ts)
                                           : h.convertToSpatialTangentModuli(Ks, Ts);
     verif::outputs2("Kr", r, S, S);
@@ -217,6 +359,11 @@ struct Dim {
     c24::fillg(Ts, "T", S);
     st2tost2<N, Sym> Ks;
     c24::fillg2(Ks, "K", S, S);
+    {
+      const auto npath = verif::ctx().path.size();
+      mark_tangent(h, EUL, Ts);
+      verif::ctx().path.resize(npath);
+    }
     const st2tost2<N, Sym> r = h.convertToCauchyStressTruesdellRateTangentModuli(Ks, Ts);
     verif::outputs2("Kr", r, S, S);
   }
